@@ -1170,7 +1170,67 @@ def _fresh_attrs(src, known):
     return out
 
 
+def canonical_member_names(src):
+    """the private attributes of ArMember by ROLE, read off the code -- the shared file object (the attribute whose seek / read are
+    called), the cursor (what it is positioned to before a read), the start of the data (set from fp.tell() where the member is made),
+    the end (start + size), the size, the file name (what open() gets) -- renamed in the syntax trees of the class to the names the
+    rules below are written in (__fp, __cur, __offset, __end, __size, __fname).  How the class calls its own fields is its business."""
+    mod = src.mod(M)
+    cname = 'ArMember'
+    if getattr(mod, '_c06_canonical', False):
+        return
+    read = mod.method(cname, 'read')
+    make = mod.method(cname, 'from_file')
+    if read is None or make is None:
+        raise AnalysisError('%s:%s.read / from_file not found' % (M, cname))
+    roles = {}
+
+    def priv(e, owner):
+        return e.attr if isinstance(e, ast.Attribute) and isinstance(e.value, ast.Name) and e.value.id == owner and e.attr.startswith('__') and not e.attr.endswith('__') else None
+    for c in ast.walk(read.node):
+        if isinstance(c, ast.Call) and isinstance(c.func, ast.Attribute) and c.func.attr == 'seek' and priv(c.func.value, 'self') and len(c.args) == 1 and priv(c.args[0], 'self'):
+            roles.setdefault('__fp', priv(c.func.value, 'self'))
+            roles.setdefault('__cur', priv(c.args[0], 'self'))
+        if isinstance(c, ast.Call) and norm(c.func) == 'open' and c.args and priv(c.args[0], 'self'):
+            roles.setdefault('__fname', priv(c.args[0], 'self'))
+    made = [st.targets[0].id for st in ast.walk(make.node) if isinstance(st, ast.Assign) and isinstance(st.targets[0], ast.Name)
+            and isinstance(st.value, ast.Call) and norm(st.value.func) in (cname, 'cls')]
+    for st in ast.walk(make.node):
+        if isinstance(st, ast.Assign) and len(st.targets) == 1 and made and priv(st.targets[0], made[0]):
+            v = st.value
+            if isinstance(v, ast.Call) and isinstance(v.func, ast.Attribute) and v.func.attr == 'tell' and not v.args:
+                roles.setdefault('__offset', priv(st.targets[0], made[0]))
+            elif isinstance(v, ast.BinOp) and isinstance(v.op, ast.Add) and priv(v.left, made[0]) and priv(v.right, made[0]) and priv(v.left, made[0]) == roles.get('__offset'):
+                roles.setdefault('__end', priv(st.targets[0], made[0]))
+                roles.setdefault('__size', priv(v.right, made[0]))
+    missing = [r_ for r_ in ('__fp', '__cur', '__fname', '__offset', '__end', '__size') if r_ not in roles]
+    if missing:
+        raise AnalysisError('%s:%s: the attribute in the role of %s is not recognised (seek(cursor) in read, tell() / start + size in from_file)' % (M, cname, ', '.join(missing)))
+    if len(set(roles.values())) != len(roles):
+        raise AnalysisError('%s:%s: two roles share one attribute: %r' % (M, cname, roles))
+    rename = {v: k for k, v in roles.items() if v != k}
+    taken = set(roles) - set(roles.values())
+    if rename:
+        cd = mod.classes[cname]
+        for n in ast.walk(cd):
+            if isinstance(n, ast.Attribute) and n.attr in taken and n.attr not in rename:
+                raise AnalysisError('%s:%s uses %s for something else than the role it has in the rules' % (M, cname, n.attr))
+        for q, f in mod.funcs.items():
+            if q.split('.')[0] == cname:
+                for n in ast.walk(f.node):
+                    if isinstance(n, ast.Attribute) and n.attr in rename:
+                        n.attr = rename[n.attr]
+        for n in ast.walk(cd):
+            if isinstance(n, ast.Attribute) and n.attr in rename:
+                n.attr = rename[n.attr]
+    mod._c06_canonical = True
+    return roles
+
+
 def check(src, rep, tier):
+    roles = rep.guard('C06.R1', lambda r_: canonical_member_names(src))
+    if roles and any(k != v for k, v in roles.items()):
+        rep.info.append('C06: the attributes of ArMember are named here by role: %s' % ', '.join('%s = self.%s' % (k, v) for k, v in sorted(roles.items()) if k != v))
     rep.explanation = ('C06: (R1) for every data-returning call on the shared file object inside ArMember all CFG paths to the call are '
                        'enumerated and 0 ≤ size ≤ end−cur is proved from the guards/assignments on the path (difference-bound entailment, '
                        'versioned attributes); calls without size, readlines and iteration are rejected.  (R2) seek(cur) dominates each read '
